@@ -226,7 +226,7 @@ class Runner:
             st = E.st = State()
             st.vars = {}
             for vn, vt in lem["vars"].items():
-                st.vars[vn] = V(parse_type(vt), z3.Const(vn, sort_of(parse_type(vt))))
+                st.vars[vn] = E.symbolic(vn, parse_type(vt), inp=True)
             E.reveal = True
             st.spec += 1
             try:
@@ -351,8 +351,12 @@ class Runner:
         known = load_known_findings(prop)
         lines = []
         nviol = 0
+        seen_oids = set()
         for v in self.violations:
             oid = v["oid"]
+            if oid in seen_oids:
+                continue
+            seen_oids.add(oid)
             inputs = fill(v["template"], v["result"]["model"] or {})
             safe = oid.replace("/", "_").replace("#", "-").replace("<", "").replace(">", "")
             path = os.path.join(outdir, safe + ".json")
